@@ -78,7 +78,7 @@ def shard(arg) -> core.Part:
                 p.violation(f"C12/trim={int(trim)},lstrip={int(lstrip)}/{labels}", {
                     "msg": f"source {src!r} trim_blocks={trim} lstrip_blocks={lstrip}: rendered {got!r}, "
                            f"documented rules give {exp!r}",
-                    "skeleton": g.jsonable(sk), "source": src, "got": repr(got), "expected": exp,
+                    "skeleton": g.jsonable(sk), "source": src, "got": repr(got), "expected": exp, "size": len(src),
                     "script": "import jinja2\n"
                               f"src = {src!r}\n"
                               f"print(repr(jinja2.Environment(trim_blocks={trim}, lstrip_blocks={lstrip})"
@@ -115,6 +115,7 @@ def run(ctx: core.Ctx):
                         "skeletons": total, "renders": total * 4}
     ctx.cov["bounds"] = bounds
     ctx.pmap(shard, shards)
+    ctx.viol.sort(key=lambda v: (v[0], v[1].get("size", 0), v[1].get("msg", "")))  # smallest input first per signature
     ctx.cov["shards_completed"] = len(shards)
     for name, b in bounds.items():
         if ctx.counters.get("skeletons/" + name, 0) != b["skeletons"]:
